@@ -180,6 +180,7 @@ def run(chk, facts, tier, only=None):
 
     def r1():
         de_rules.rule_guard(chk, facts)
+        de_rules.rule_progress(chk, facts)
         seen, g = reach.reachable(c, set(c.bodies))
         comps = reach.sccs(g)
         ncyc = 0
